@@ -51,6 +51,14 @@ CHECKS = {
             "Rings of 1..3 stations with 0..3 applications each (scripted traffic generators, LiveList), peers that answer correctly, late, with foreign addresses, with requests or tokens, or not at all: the call log of the FdlApplication callbacks is checked against the call model R7 (asked only while holding the token and with nothing outstanding; reply or time-out only to the requester, at most one; delivered reply admissible; round-robin order; nobody asked after all declined; no message cycle after the hold time except the first of a visit).",
             "Trusted: call-log probe around every application, token holder derived from token telegrams on the bus.",
             "deterministic simulation (seeded schedules and application programs); application call model as oracle"),
+    "C11": ("adv", "fault_enumeration", "6 C11",
+            "One real station against the semi-cooperative adversary node (plays predecessor, successor, stranger, invalid addresses, answers or ignores GAP polls and token passes, stays silent for sub-slot / slot / time-out lengths, sends garbage), plus rings of 3..5 real stations with crashes biased to the highest / lowest address: every transmission the station starts without being asked must be justified (token from the registered predecessor, second offer of a stranger, never while listening, or a claim after its silence time-out); token from the predecessor + silent bus => it transmits within 3P+33bit; after its own pass: retransmission no earlier than one slot time, at most two, then the silent successor is removed and the token goes to the next station of the list (or to itself); a heard successor is never removed.",
+            "Trusted: adversary stub, consumption log of the harness PHY (what the station consumed per poll), registered predecessor sampled before/after the consuming poll. The claim rule here ignores undecodable bytes (lenient; the exact rule is C01's).",
+            "deterministic simulation with an adversarial peer; hand-over model as oracle"),
+    "C12": ("adv+ring", "fault_enumeration", "6 C12",
+            "Rings of 1..4 real stations (staged joins, leaves, slaves that answer status polls inside the GAPs) and single stations against the (mostly polite) adversary: every own FDL status request must target the open interval (TS,NS) below HSA as it is at that moment; one per token visit except the complete contiguous scan after a claim; >= G token visits between sweeps; every GAP address polled within gap size + G + 3 visits; a ready/in-ring answer makes the replier the destination of the next token. Status replies of real stations: only to a request addressed to them that they consumed last, to the requester, within the slot time when the bus stays silent; 'ready' only after two identical witnessed rotations (R3 model over the consumed token passes) and only to the predecessor, 'in ring' only if in the ring before, not 'not ready' when in the ring or after three identical rotations when asked by the predecessor.",
+            "Trusted: R3/R4 models, consumption log; visit / sweep accounting restarts after collisions, garbage or tokens offered while holding (rules are judged in calm periods).",
+            "deterministic simulation (real rings and adversarial peer); GAP model and status-reply model as oracles"),
 }
 
 PENDING = ["C03", "C04", "C05", "C06", "C07", "C08", "C10", "C11", "C12", "C13", "C14", "C15", "C16", "C18"]
